@@ -38,6 +38,8 @@ type vTransport struct {
 
 	closed   chan struct{}
 	isClosed bool
+	// writesAfterClose: bytes somebody tried to write after the transport was closed
+	writesAfterClose int
 	closes   int
 
 	// probe is evaluated at every Write (before the bytes are recorded); results are kept in probes
@@ -55,6 +57,9 @@ type vTransport struct {
 	closeErr    error // returned by Close
 	// slowClose: Close takes this long (a TLS close_notify to a peer that has stopped reading, a slow kernel)
 	slowClose time.Duration
+	// holdSurvivesClose: a held Write is not released by Close: it completes (its bytes are taken) when release is
+	// closed, as a kernel write already in flight does
+	holdSurvivesClose bool
 	// endTogether: the Read that delivers the last input bytes also reports the end (n > 0 together with the error),
 	// as io.Reader allows and crypto/tls does on close_notify
 	endTogether bool
@@ -200,6 +205,7 @@ func (t *vTransport) Read(p []byte) (int, error) {
 
 func (t *vTransport) Write(p []byte) (int, error) {
 	if t.isClosed {
+		t.writesAfterClose += len(p)
 		return 0, vErrTransportClosed
 	}
 	if t.writeBlock {
@@ -215,6 +221,12 @@ func (t *vTransport) Write(p []byte) (int, error) {
 	if t.holdWrites > 0 || (t.holdAt > 0 && len(t.writes)+1 == t.holdAt) {
 		if t.holdWrites > 0 {
 			t.holdWrites--
+		}
+		if t.holdSurvivesClose {
+			<-t.release
+			t.out = append(t.out, p...)
+			t.writes = append(t.writes, len(t.out))
+			return len(p), nil
 		}
 		select {
 		case <-t.release:
